@@ -45,7 +45,7 @@ def _parse(repo, rel):
 
 def _has(fn, what):
     for n in ast.walk(fn):
-        if what == 'minmax' and isinstance(n, ast.Name) and n.id in ('min', 'max'):
+        if what == 'minmax' and isinstance(n, ast.Call) and isinstance(n.func, ast.Name) and n.func.id in ('min', 'max'):
             return True
         if what == 'inf' and isinstance(n, ast.Call) and getattr(n.func, 'id', None) == 'float' and n.args and isinstance(n.args[0], ast.Constant) \
                 and str(n.args[0].value).lower() == 'inf':
@@ -178,7 +178,7 @@ def gen_operations(repo):
                             out.append(mutant('%s-strict%d-%s' % (tag, k, cls.name), rel, q, strict_flip(k)))
                 if 'reset' in ms and len(ms['reset'].body) >= 1 and not isinstance(ms['reset'].body[0], ast.Pass):
                     out.append(mutant('%s-noreset-%s' % (tag, cls.name), rel, '%s.reset' % cls.name, _empty_body))
-                if 'update' in ms:
+                if 'update' in ms and len(ms['update'].args.args) == 3:
                     out.append(mutant('%s-swapargs-%s' % (tag, cls.name), rel, '%s.update' % cls.name, _swap_params))
     return out
 
@@ -299,14 +299,57 @@ def _flip_first_addsub(fn):
 def hand(repo):
     out = []
     A = out.append
+    DTI = 'rtamt/semantics/discrete_time_interpreter.py'
+    DENSE_I = 'rtamt/semantics/dense_time_interpreter.py'
     # C13 sampling counter
-    A(text_mutant('c13-tolerance-sign', 'rtamt/semantics/discrete_time_interpreter.py', '1 + self.ast.sampling_tolerance', '1 - self.ast.sampling_tolerance', 0))
+    A(text_mutant('c13-tolerance-lower-only', DTI, 'if duration < period - tolerance or duration > period + tolerance:', 'if duration < period - tolerance:'))
+    A(text_mutant('c13-tolerance-absolute', DTI, 'tolerance = period * self.sampling_tolerance', 'tolerance = self.sampling_tolerance'))
+    A(text_mutant('c13-period-raw', DTI, "period = float(self.sampling_period) * self.U[self.sampling_period_unit] / self.U[self.ast.unit]", 'period = float(self.sampling_period)'))
+    A(text_mutant('c13-counter-reset', DTI, 'self.sampling_violation_counter = self.sampling_violation_counter + 1', 'self.sampling_violation_counter = 1'))
+    # C08 units
+    A(text_mutant('c08-unit-table-ms', 'rtamt/syntax/ast/parser/abstract_ast_parser.py', 'self.MS_UNIT = int(1000000)', 'self.MS_UNIT = int(100000)'))
+    A(text_mutant('c08-unit-table-ms-discrete', DTI, 'self.MS_UNIT = int(1000000)', 'self.MS_UNIT = int(100000)'))
+    A(text_mutant('c08-discrete-begin-default-unit', DTI, 'b = b * self.ast.U[b_unit]', 'b = b * self.ast.U[self.ast.unit]'))
+    A(text_mutant('c08-discrete-no-divisibility-guard', DTI, """        if e.numerator % e.denominator > 0:
+            raise RTAMTException('The operator bound must be a multiple of the sampling period')
+""", ''))
+    A(text_mutant('c08-discrete-period-unit-ignored', DTI, 'sp = Fraction(self.sampling_period * self.ast.U[self.sampling_period_unit])', 'sp = Fraction(self.sampling_period * self.ast.U[self.ast.unit])'))
+    A(text_mutant('c08-dense-ratio-inverted', DENSE_I, 'b = b * (self.ast.U[b_unit] / self.ast.U[self.ast.unit])', 'b = b * (self.ast.U[self.ast.unit] / self.ast.U[b_unit])'))
+    A(text_mutant('c08-dense-end-uses-begin-unit', DENSE_I, 'e = e * (self.ast.U[e_unit] / self.ast.U[self.ast.unit])', 'e = e * (self.ast.U[b_unit] / self.ast.U[self.ast.unit])'))
     # C11 / C12
     A(mutant('c12-results-not-stored', OFF_D, 'StlDiscreteTimeOfflineAstVisitor.visit', E.delete_stmt(E.stmt_contains('results'))))
     A(mutant('c12-dense-results-not-stored', OFF_DENSE, 'StlDenseTimeOfflineAstVisitor.visit', E.delete_stmt(E.stmt_contains('results'))))
-    # C08 unit table
-    A(text_mutant('c08-unit-table-ms', 'rtamt/syntax/ast/parser/abstract_ast_parser.py', 'self.MS = int(1e6)', 'self.MS = int(1e5)', 0))
-    # C10: reset visitor does not descend
+    A(text_mutant('c11-timed-always-pads-in-place', OFF_D, 'sample = sample + ', 'sample += ', 0))
+    # C04 / C05 / C07 sliding-window kernels (dense time)
+    A(text_mutant('c04-once-pop-ignores-start', OFF_DENSE, 'while (a[2] < b[2]) and (b[0] < a[0]):', 'while (a[2] < b[2]):'))
+    A(text_mutant('c04-once-pop-ignores-value', OFF_DENSE, 'while (a[2] < b[2]) and (b[0] < a[0]):', 'while (b[0] < a[0]):'))
+    A(text_mutant('c04-once-extend-from-start', OFF_DENSE, 'out.append((a[1], b[1], b[2]))', 'out.append((a[0], b[1], b[2]))', 0))
+    A(text_mutant('c04-once-cut-keeps-new-value', OFF_DENSE, 'out.append((a[0], b[0], a[2]))', 'out.append((a[0], b[0], b[2]))', 0))
+    A(text_mutant('c04-always-extend-to-end', OFF_DENSE, 'out.insert(0, (b[0], a[0], b[2]))', 'out.insert(0, (b[0], a[1], b[2]))', 0))
+    A(text_mutant('c04-once-interval-begin-for-end', OFF_DENSE, 'b = (input_list[i - 1][0] + begin, input_list[i][0] + end, input_list[i - 1][1])',
+                  'b = (input_list[i - 1][0] + begin, input_list[i][0] + begin, input_list[i - 1][1])', 0))
+    A(text_mutant('c04-once-interval-wrong-sample', OFF_DENSE, 'b = (input_list[i - 1][0] + begin, input_list[i][0] + end, input_list[i - 1][1])',
+                  'b = (input_list[i - 1][0] + begin, input_list[i][0] + end, input_list[i][1])', 0))
+    A(text_mutant('c04-always-interval-swapped-bounds', OFF_DENSE, 'b = (input_list[i][0] - end, input_list[i + 1][0] - begin, input_list[i][1])',
+                  'b = (input_list[i][0] - begin, input_list[i + 1][0] - end, input_list[i][1])', 0))
+    A(text_mutant('c04-once-no-filler', OFF_DENSE, 'if i == 1 and begin > 0:', 'if i == 0 and begin > 0:', 0))
+    A(text_mutant('c04-since-timed-wrong-global', OFF_DENSE, 'out3 = historically_timed_operation(out2, 0, begin)', 'out3 = historically_timed_operation(out2, begin, begin)'))
+    A(text_mutant('c04-until-timed-wrong-kernel', OFF_DENSE, 'out3 = always_timed_operation(out2, 0, begin)', 'out3 = eventually_timed_operation(out2, 0, begin)'))
+    A(text_mutant('c04-timed-once-swapped-bounds', OFF_DENSE, 'sample_return = once_timed_operation(sample, begin, end)', 'sample_return = once_timed_operation(sample, end, begin)'))
+    A(text_mutant('c04-timed-always-wrong-kernel', OFF_DENSE, 'sample_return = always_timed_operation(sample, begin, end)', 'sample_return = eventually_timed_operation(sample, begin, end)'))
+    A(text_mutant('c04-output-emits-end', OFF_DENSE, 'ans.append([b[0], b[2]])', 'ans.append([b[1], b[2]])', 0))
+    A(text_mutant('c04-output-no-clip', OFF_DENSE, 'if b[0] <= 0 and b[1] > 0:', 'if b[0] <= 0 and b[1] >= 0:', 0))
+    ONCE_ON = ON_DENSE + 'once_timed_operation.py'
+    A(text_mutant('c05-online-once-pop-ignores-start', ONCE_ON, 'while (a[2] < b[2]) and (b[0] < a[0]):', 'while (a[2] < b[2]):'))
+    A(text_mutant('c05-online-once-interval', ONCE_ON, 'b = (sample[i - 1][0] + begin, sample[i][0] + end, sample[i - 1][1])', 'b = (sample[i - 1][0] + begin, sample[i][0] + begin, sample[i - 1][1])'))
+    A(text_mutant('c05-online-since-wrong-order', ON_DENSE + 'since_timed_operation.py', 'out2 = self.since.update(sample_left, sample_right)', 'out2 = self.since.update(sample_right, sample_left)'))
+    A(text_mutant('c05-online-since-hist-bounds', ON_DENSE + 'since_timed_operation.py', 'self.hist = HistoricallyTimedOperation(0, self.begin)', 'self.hist = HistoricallyTimedOperation(0, self.end)'))
+    # C01 / C02 / C17 bounded discrete operators
+    A(text_mutant('c17-padding-guard', OFF_D, 'if sample_len <= end:', 'if sample_len < end:', 0))
+    A(text_mutant('c07-online-once-scaled-value', ON_D + 'once_timed_operation.py', 'sample_return = max(sample_return, self.buffer[i])', 'sample_return = max(sample_return, 0.5 * self.buffer[i])'))
+    A(text_mutant('c07-online-since-shifted-value', ON_D + 'since_timed_operation.py', 'sample_right = self.buffer_sample_right[i]', 'sample_right = self.buffer_sample_right[i] - 1'))
+    # C02 / C09 / C05 memo of the update visitor
+    A(text_mutant('c02-memo-truthiness', 'rtamt/semantics/abstract_online_interpreter.py', 'if node.name in self.visited:', 'if self.visited.get(node.name):', 0))
     return out
 
 
@@ -334,6 +377,21 @@ def twins(repo):
     A({'id': 'twin-reformat-pastifier', 'kind': 'twin', 'props': list(ALL), 'edits': [('rtamt/pastifier/stl/pastifier.py', _reformat)]})
     A({'id': 'twin-reformat-parser-visitor', 'kind': 'twin', 'props': list(ALL), 'edits': [('rtamt/syntax/ast/parser/stl/parser_visitor.py', _reformat)]})
     A({'id': 'twin-reformat-online-interpreter', 'kind': 'twin', 'props': list(ALL), 'edits': [('rtamt/semantics/abstract_online_interpreter.py', _reformat)]})
+    for rel in ('rtamt/semantics/abstract_discrete_time_offline_interpreter.py', 'rtamt/semantics/abstract_discrete_time_online_interpreter.py',
+                'rtamt/semantics/abstract_dense_time_online_interpreter.py', 'rtamt/semantics/abstract_dense_time_offline_interpreter.py',
+                'rtamt/semantics/dense_time_interpreter.py', 'rtamt/semantics/stl/dense_time/offline/intersection.py',
+                'rtamt/semantics/stl/dense_time/online/intersection.py', 'rtamt/semantics/stl/dense_time/online/once_timed_operation.py',
+                'rtamt/semantics/stl/dense_time/online/since_timed_operation.py', 'rtamt/semantics/stl/discrete_time/online/since_timed_operation.py',
+                'rtamt/semantics/stl/discrete_time/online/precedes_timed_operation.py', 'rtamt/semantics/stl/discrete_time/online/ast_visitor.py',
+                'rtamt/semantics/stl/dense_time/online/ast_visitor.py', 'rtamt/pastifier/stl/horizon.py', 'rtamt/pastifier/ltl/horizon.py',
+                'rtamt/pastifier/ltl/pastifier.py', 'rtamt/syntax/ast/parser/ltl/parser_visitor.py', 'rtamt/syntax/ast/parser/abstract_ast_parser.py',
+                'rtamt/spec/abstract_specification.py', 'rtamt/semantics/iastl/discrete_time/offline/ast_visitor.py',
+                'rtamt/semantics/iastl/dense_time/offline/ast_visitor.py', 'rtamt/semantics/iastl/discrete_time/online/predicate_operation.py'):
+        A({'id': 'twin-reformat-%s' % rel.replace('rtamt/', '').replace('/', '.')[:-3], 'kind': 'twin', 'props': list(ALL), 'edits': [(rel, _reformat)]})
+    for p in sorted(glob.glob(os.path.join(repo, 'rtamt', 'explanation', '**', '*.py'), recursive=True)):
+        rel = os.path.relpath(p, repo)
+        if os.path.basename(rel) != '__init__.py':
+            A({'id': 'twin-reformat-%s' % rel.replace('rtamt/', '').replace('/', '.')[:-3], 'kind': 'twin', 'props': list(ALL), 'edits': [(rel, _reformat)]})
     A({'id': 'twin-reformat-discrete-interpreter', 'kind': 'twin', 'props': list(ALL), 'edits': [('rtamt/semantics/discrete_time_interpreter.py', _reformat)]})
     return out
 
@@ -390,6 +448,12 @@ def variants(repo, discover=False):
     out = []
     for v in reversed_fixes() + seeded() + generated(repo):
         if discover:
+            v['props'] = list(ALL)
+            out.append(v)
+            continue
+        if v['id'] in exp and exp[v['id']].get('equivalent'):
+            # triaged as behaviour-preserving: it becomes a twin that every check must leave alone
+            v['kind'] = 'twin'
             v['props'] = list(ALL)
             out.append(v)
             continue
